@@ -109,6 +109,37 @@ func LoadWorld(tags string, overlay map[string][]byte) (*World, error) {
 		w.AllFuncs = append(w.AllFuncs, fn)
 		w.Funcs[FuncName(fn)] = fn
 	}
+	// generic methods that are never instantiated or referenced are not in AllFunctions: add declared ones
+	for _, sp := range w.SSA {
+		for _, mem := range sp.Members {
+			tp, ok := mem.(*ssa.Type)
+			if !ok {
+				continue
+			}
+			named, ok := tp.Type().(*types.Named)
+			if !ok {
+				continue
+			}
+			for i := 0; i < named.NumMethods(); i++ {
+				fn := prog.FuncValue(named.Method(i))
+				if fn == nil || fn.Blocks == nil {
+					continue
+				}
+				if _, have := w.Funcs[FuncName(fn)]; have {
+					continue
+				}
+				var add func(f *ssa.Function)
+				add = func(f *ssa.Function) {
+					w.AllFuncs = append(w.AllFuncs, f)
+					w.Funcs[FuncName(f)] = f
+					for _, an := range f.AnonFuncs {
+						add(an)
+					}
+				}
+				add(fn)
+			}
+		}
+	}
 	sort.Slice(w.AllFuncs, func(i, j int) bool { return FuncName(w.AllFuncs[i]) < FuncName(w.AllFuncs[j]) })
 	w.buildConsts()
 	return w, nil
